@@ -120,9 +120,23 @@ def arm_cells(prog, f, ev, trail, ret):
     L = outer[0]
     I = L['item']
     rng = I[2]
-    if tag(rng) != 'range' or not (tag(rng[1]) == 'const' and rng[1][2] == 0):
-        raise NotRecognised('row loop range %s' % show(rng)[:50])
-    rows = arm.dim(rng[2])
+    chunk = None
+    if tag(rng) == 'call' and short(rng[1]) in ('chunks_mut', 'chunks_exact_mut') and len(rng[2]) == 2:
+        # `for chunk in out.data.chunks_mut(k)`: the flat data cut into consecutive pieces of k elements; piece I is row I of the result
+        # exactly when k is the row length (decided by the caller on the dimension classes)
+        base = strip(rng[2][0])
+        while tag(base) in ('field',) or (tag(base) == 'call' and short(base[1]) in ('deref_mut', 'deref', 'as_mut_slice', 'data_mut') and base[2]):
+            base = strip(base[1] if tag(base) == 'field' else base[2][0])
+        if base != N:
+            raise NotRecognised('chunks of %s' % show(base)[:40])
+        chunk = arm.dim(rng[2][1])
+        if chunk is None:
+            raise NotRecognised('chunk length %s is not a dimension' % show(rng[2][1])[:40])
+        rows = 'all'
+    else:
+        if tag(rng) != 'range' or not (tag(rng[1]) == 'const' and rng[1][2] == 0):
+            raise NotRecognised('row loop range %s' % show(rng)[:50])
+        rows = arm.dim(rng[2])
     inner = [li for li in f.loop_info() if li['header'] in L['blocks'] and li['header'] != L['header'] and li['item'] is not None]
     cols = None
     env = {I: 'I'}
@@ -210,12 +224,15 @@ def arm_cells(prog, f, ev, trail, ret):
         elif short(c.path) == 'for_each' and tag(c.args[0]) == 'call' and short(c.args[0][1]) == 'zip':
             z = c.args[0]
             lhs, rhs = strip(z[2][0]), strip(z[2][1])
-            if not (tag(lhs) == 'call' and short(lhs[1]) == 'iter_mut' and tag(strip(lhs[2][0])) == 'call' and strip(lhs[2][0])[1] == IDXM
-                    and strip(strip(lhs[2][0])[2][0]) == N):
-                raise NotRecognised('zip lhs %s' % show(lhs)[:60])
-            a = arm.idx(strip(lhs[2][0])[2][1], env)
-            if a != 'I':
-                raise NotRecognised('zip over out[%s]' % a)
+            if chunk is not None and tag(lhs) == 'call' and short(lhs[1]) == 'iter_mut' and strip(lhs[2][0]) == I:
+                pass          # the piece handed out by the chunk loop is the row being written
+            else:
+                if not (tag(lhs) == 'call' and short(lhs[1]) == 'iter_mut' and tag(strip(lhs[2][0])) == 'call' and strip(lhs[2][0])[1] == IDXM
+                        and strip(strip(lhs[2][0])[2][0]) == N):
+                    raise NotRecognised('zip lhs %s' % show(lhs)[:60])
+                a = arm.idx(strip(lhs[2][0])[2][1], env)
+                if a != 'I':
+                    raise NotRecognised('zip over out[%s]' % a)
             if tag(rhs) == 'call' and short(rhs[1]) in ('iter', 'into_iter'):
                 rhs = strip(rhs[2][0])
             if not (tag(rhs) == 'call' and rhs[1] == IDX and strip(rhs[2][0]) in arm.names):
@@ -244,7 +261,7 @@ def arm_cells(prog, f, ev, trail, ret):
         raise NotRecognised('element expression not read: %r' % (F,))
     if rows is None or (J is not None and cols is None):
         raise NotRecognised('loop bound not a dimension of an operand')
-    return {'kind': short(path), 'F': F, 'rows': rows, 'cols': cols, 'stride': stride, 'fresh': fresh, 'N': N}
+    return {'kind': short(path), 'F': F, 'rows': rows, 'cols': cols, 'stride': stride, 'fresh': fresh, 'N': N, 'chunk': chunk}
 
 
 def _has_unknown(F):
